@@ -158,7 +158,7 @@ func cmdCheck(args []string) int {
 		}
 	}
 	sort.Strings(names)
-	timeout := 10
+	timeout := 15
 	if *tier == "thorough" {
 		timeout = 60
 	}
@@ -232,7 +232,7 @@ func cmdCheck(args []string) int {
 		}
 	}
 	var wg sync.WaitGroup
-	pool := make(chan struct{}, 10)
+	pool := make(chan struct{}, 6)
 	for _, j := range jobs {
 		wg.Add(1)
 		pool <- struct{}{}
@@ -292,13 +292,15 @@ func report(out *propOutcome, verbose bool) int {
 		for a := range fr.vc.assumptions {
 			assumptions[a] = true
 		}
+		if vacuousFunction(fr.obs) {
+			out.Undecided = append(out.Undecided, "vacuous: no exit of "+fr.name+" ["+fr.mode+"] is reachable under its preconditions and invariants")
+		}
 		for _, ob := range fr.obs {
 			solverSeconds += ob.Res.Seconds
 			if ob.Cover {
 				covers++
 				if ob.Res.Status == "unsat" {
-					vacuous++
-					out.Undecided = append(out.Undecided, "vacuous: "+ob.Name+" is unreachable under the contract's assumptions")
+					vacuous++ // an unreachable return (dead code after a noreturn call) is fine; all of them is not
 				}
 				continue
 			}
